@@ -1,6 +1,7 @@
 package main
 
 import (
+	pathpkg "path"
 	"archive/tar"
 	"bytes"
 	"compress/bzip2"
@@ -287,6 +288,7 @@ func b58orDash(s string) string {
 
 // unpackExec: recipe = "unpack tar <filter-string> <format> <mut> <rawhdr;rawhdr;...>"
 func unpackExec(c *Ctx, op string) string {
+	c.Begin(op)
 	f := strings.Fields(op)
 	filt := api.MustParseFilesetUnpackFilter(f[2])
 	var hdrs []RawHdr
@@ -444,6 +446,28 @@ func unpackEngine(c *Ctx) {
 	}
 	for _, op := range corpus {
 		c.Emit2(op, unpackExec)
+	}
+	// the "goes up" gate of the unpacker (C18): an entry is refused as leaving the base iff its *cleaned* name is ".."
+	// or begins with "../" — not when it merely begins with two dots, and also when the raw spelling hides it
+	gateNames := []string{"..foo", "...", "..a/b", "./..x", "a/..b", "./../evil", "a/../../evil", "./a/b/../../../evil", "../x", "..", "a/..", "a/../..b", "a/../../..", ".../x", "..\xff"}
+	for i := 0; i < 6; i++ {
+		gateNames = append(gateNames, []string{"", "./", "a/../", "../", "a/b/../../"}[c.Intn(5)]+[]string{"..", "..z", "...", "x", "../y", "./..", "..//q"}[c.Intn(7)])
+	}
+	for _, nm := range gateNames {
+		hh := []RawHdr{{Name: "./", Typeflag: '5', Mode: 0755}, {Name: nm, Typeflag: '0', Mode: 0644}}
+		op := fmt.Sprintf("unpack tar %s - none %s", lossless, hdrsTok(hh))
+		r := unpackExec(c, op)
+		parts := strings.SplitN(r, "\x00", 2)
+		c.EmitR(op, parts[0], parts[1])
+		cl := pathpkg.Clean(nm)
+		up := cl == ".." || strings.HasPrefix(cl, "../")
+		c.H(fmt.Sprintf("gate:up=%v", up))
+		switch {
+		case up && parts[1] != "err rio-ware-corrupt":
+			c.PropFail("goesup-gate", fmt.Sprintf("entry %q leaves the base (cleaned: %q) but unpack answered %s instead of refusing it as corrupt", nm, cl, parts[1]), op)
+		case !up && cl != "." && !strings.HasPrefix(parts[1], "ok "):
+			c.PropFail("goesup-gate", fmt.Sprintf("entry %q stays inside the base (cleaned: %q) but unpack answered %s", nm, cl, parts[1]), op)
+		}
 	}
 	for k := 0; k < nSets; k++ {
 		fsx := c.GenFileset(opts)
